@@ -8,6 +8,8 @@ package main
 //	store  <stmt>    assignment / swap / op-assign / ++ whose left side indexes an alias of the parameter
 //	append <call>    append(alias, …)           (may write into the caller's spare capacity)
 //	write  <call>    copy(alias, …), clear(alias), sort.*/slices.* with an alias argument
+//	state  <stmt>    an assignment inside a closure to a variable of the enclosing function (state kept between
+//	                 the invocations of the composed function, e.g. a recycled buffer)
 //	escape <call>    an alias handed (not spread into one of the four combinators themselves) to any other call
 //	missing          the function does not exist any more
 //
@@ -150,6 +152,91 @@ func c20Effects(fset *token.FileSet, fd *ast.FuncDecl) []string {
 			}
 		}
 		return true
+	})
+	// captured mutable state: a closure that assigns to a variable of the enclosing function keeps state between
+	// the invocations of the composed function (e.g. a recycled argument/result buffer)
+	ast.Inspect(fd.Body, func(n ast.Node) bool {
+		lit, ok := n.(*ast.FuncLit)
+		if !ok {
+			return true
+		}
+		local := map[string]bool{"_": true}
+		for _, p := range lit.Type.Params.List {
+			for _, nm := range p.Names {
+				local[nm.Name] = true
+			}
+		}
+		if lit.Type.Results != nil {
+			for _, p := range lit.Type.Results.List {
+				for _, nm := range p.Names {
+					local[nm.Name] = true
+				}
+			}
+		}
+		ast.Inspect(lit.Body, func(m ast.Node) bool {
+			switch x := m.(type) {
+			case *ast.AssignStmt:
+				if x.Tok == token.DEFINE {
+					for _, l := range x.Lhs {
+						if id, ok := l.(*ast.Ident); ok {
+							local[id.Name] = true
+						}
+					}
+				}
+			case *ast.ValueSpec:
+				for _, nm := range x.Names {
+					local[nm.Name] = true
+				}
+			case *ast.RangeStmt:
+				if x.Tok == token.DEFINE {
+					for _, e := range []ast.Expr{x.Key, x.Value} {
+						if id, ok := e.(*ast.Ident); ok {
+							local[id.Name] = true
+						}
+					}
+				}
+			}
+			return true
+		})
+		root := func(e ast.Expr) string {
+			for {
+				switch x := e.(type) {
+				case *ast.Ident:
+					return x.Name
+				case *ast.ParenExpr:
+					e = x.X
+				case *ast.IndexExpr:
+					e = x.X
+				case *ast.SliceExpr:
+					e = x.X
+				case *ast.SelectorExpr:
+					e = x.X
+				case *ast.StarExpr:
+					e = x.X
+				default:
+					return "_"
+				}
+			}
+		}
+		ast.Inspect(lit.Body, func(m ast.Node) bool {
+			switch x := m.(type) {
+			case *ast.AssignStmt:
+				if x.Tok != token.DEFINE {
+					for _, l := range x.Lhs {
+						if !local[root(l)] {
+							effs = append(effs, "state "+c20Src(fset, x))
+							break
+						}
+					}
+				}
+			case *ast.IncDecStmt:
+				if !local[root(x.X)] {
+					effs = append(effs, "state "+c20Src(fset, x))
+				}
+			}
+			return true
+		})
+		return false
 	})
 	return effs
 }
